@@ -55,6 +55,11 @@ def call_ref(it, name, args, kwargs, node, fr):
         u.tree_data = args[0]
         u.tree_space = getattr(args[0], "space", None)
         return u
+    if name == "builtins.dict.fromkeys" and args:
+        keys = it.iter_items(args[0])
+        if keys is not None and all(is_pyconst(k_) for k_ in keys):
+            val_ = args[1] if len(args) > 1 else K(None)
+            return DictV({pyval(k_): val_ for k_ in keys})
     if name in ("numba.prange",):
         return call_builtin(it, "range", args, kwargs, node, fr)
     if name in ("numba.cuda.grid",):
@@ -1033,7 +1038,10 @@ def frame_method(it, f, name, args, kwargs, node, fr):
     if name == "fillna":
         v = argn(args, kwargs, 0, "value")
         tgt = f if _flag(kwargs, "inplace") is True else f.clone()
-        tgt.notes.append(("fillna", pyval(v) if v is not None and is_pyconst(v) else "?"))
+        if isinstance(v, DictV) and all(is_pyconst(x_) for x_ in v.items.values()):
+            tgt.notes.append(("fillna", {k_: pyval(x_) for k_, x_ in v.items.items()}))  # per-column fill values: columns not listed stay unfilled
+        else:
+            tgt.notes.append(("fillna", pyval(v) if v is not None and is_pyconst(v) else "?"))
         return K(None) if tgt is f else tgt
     if name == "reset_index":
         drop = _flag(kwargs, "drop")
